@@ -24,6 +24,8 @@ def setup(src):
     if key not in _ST:
         it = Interp(src)
         it.max_steps = None
+        from .. import pkgmodel
+        pkgmodel.install(it)   # only used if the table starts consulting packaging (then version-like literals matter)
         gm = it.module("dep_logic.specifiers.generic")
         sm = it.module("dep_logic.specifiers.special")
         for n, m in (("GenericSpecifier", gm), ("EmptySpecifier", sm), ("AnySpecifier", sm)):
@@ -120,7 +122,9 @@ def _work(task):
 def run(chk):
     src = str(chk.src)
     quick = chk.tier == "quick"
-    strings = pool("ab", 3)
+    # relation-class representatives + literals that are different strings but equal / ordered as PEP 440 versions: the property
+    # is about STRING atoms, so any version-awareness creeping into the table must show up as a mismatch
+    strings = pool("ab", 3) + ["3.8", "3.8.0", "1.0rc1", "1.0RC1", "3.10"]
     ops = OPS4 + OPS_ORD
     chk.explanation = (
         "ABSINT of GenericSpecifier.__and__/__or__/__invert__/__contains__ and Empty/AnySpecifier.__contains__ over all ordered "
@@ -153,7 +157,7 @@ def run(chk):
     chk.rules["R19.2"]["instances"] += total - undefined
     chk.nontrivial.update(("R19", i) for i in range(nontriv))
     # R19.3 quotient saturation (pure string computation on the oracle side)
-    small = signatures(strings)
+    small = signatures(pool("ab", 3))
     bigger = signatures(pool("ab", 4)) if quick else signatures(pool("abc", 4))
     chk.instance("R19.3")
     if bigger - small:
